@@ -35,12 +35,19 @@ def replay(spec):
                             [([], ["A"], "massaction", {"k": k1}), (["A"], ["B"], "massaction", deg), (["B"], ["C"], "massaction", deg),
                              (["C", "C"], [], "massaction", deg)],
                             lambda t, s: {"A": k1 - k2 * s["A"], "B": k2 * s["A"] - k2 * s["B"], "C": k2 * s["B"] - 2 * k2 * s["C"] ** 2})
+    cases["general_minmax"] = (["A", "B", "C"],
+                               [(["A"], ["B"], "general", {"rate": "%r*min(A, B, C)" % k1}), (["B"], ["C"], "general", {"rate": "%r*max(C, max(A, B))" % k2}),
+                                (["C"], [], "general", {"rate": "%r*abs(A - B)" % k3})],
+                               lambda t, s: {"A": -k1 * min(s["A"], s["B"], s["C"]), "B": k1 * min(s["A"], s["B"], s["C"]) - k2 * max(s["A"], s["B"], s["C"]),
+                                             "C": k2 * max(s["A"], s["B"], s["C"]) - k3 * abs(s["A"] - s["B"])})
     names = [spec["model"]] if spec.get("model") in cases else list(cases)
     for name in names:
         species, rx, rhs = cases[name]
-        init = {"A": 2.0, "B": 1.0, "C": 3.0} if name != "general_names" else {"S": 2.0, "E": 1.0, "I": 3.0}
+        inits = [{"A": 2.0, "B": 1.0, "C": 3.0}] if name != "general_names" else [{"S": 2.0, "E": 1.0, "I": 3.0}]
+        if name == "general_minmax":
+            inits += [{"A": 1.0, "B": 3.0, "C": 2.0}, {"A": 3.0, "B": 2.0, "C": 1.0}, {"A": 5.0, "B": 4.0, "C": 0.5}]
         pkw = dict(parameters=[("N", k1), ("Q", k2), ("O", k3)]) if name == "general_names" else {}
-        for tp in (np.linspace(0, 2, 9), np.array([0.0, 0.1, 0.15, 0.9, 2.0])):
+        for init, tp in [(i_, t_) for i_ in inits for t_ in (np.linspace(0, 2, 9), np.array([0.0, 0.1, 0.15, 0.9, 2.0]))]:
             try:
                 M = Model(species=species, reactions=rx, initial_condition_dict=init, **pkw)
             except Exception as e:
